@@ -588,6 +588,9 @@ DsResolve(a, name) ==
 (***************************************************************************)
 (* Reader (Table._get_all_data_files + data reads).                        *)
 (***************************************************************************)
+\* row_count() stops after the manifests (it sums their record counts): data |-> FALSE
+WantsData(a) == IF "data" \in DOMAIN CurOp(a) THEN CurOp(a).data ELSE TRUE
+
 RBegin(a, name) ==
   /\ Role[a] = "reader"
   /\ pc[a] = "idle"
@@ -623,6 +626,7 @@ RReadManifest(a) ==
 RReadData(a, f) ==
   /\ pc[a] = "r_data"
   /\ f \in loc[a].rfiles \ loc[a].got
+  /\ WantsData(a)
   /\ IF f \in present
      THEN /\ loc' = [loc EXCEPT ![a].got = @ \cup {f}]
           /\ UNCHANGED pc
@@ -632,9 +636,10 @@ RReadData(a, f) ==
 
 RReturn(a) ==
   /\ \/ pc[a] = "r_return"
-     \/ pc[a] = "r_data" /\ loc[a].got = loc[a].rfiles
+     \/ pc[a] = "r_data" /\ (loc[a].got = loc[a].rfiles \/ ~WantsData(a))
   /\ reads' = Append(reads, [a |-> a, from |-> loc[a].from, to |-> Len(commitLog),
-                             files |-> loc[a].got, err |-> loc[a].err, cur |-> loc[a].body.cur])
+                             files |-> IF WantsData(a) \/ loc[a].err # "none" THEN loc[a].got ELSE loc[a].rfiles,
+                             err |-> loc[a].err, cur |-> loc[a].body.cur])
   /\ pc' = [pc EXCEPT ![a] = "idle"]
   /\ opi' = [opi EXCEPT ![a] = @ + 1]
   /\ UNCHANGED <<storageVars, clock, lockHolder, rlock, att, loc, faults, armed, commitLog, serial, tsOf, sidOfOp, outcomes, deleted>>
